@@ -117,6 +117,12 @@ def product(a,b):
       potential.deriv2 = deriv2
   return potential
 
+def _power_term(c, x, n):
+  """c * x**n, where a zero coefficient removes the term (0 * 0**-1 is 0 here, not an error)."""
+  if c == 0:
+    return 0.0
+  return c * x**n
+
 def pow(a,b):
   """Takes two callables and returns a third which when evaluated returns the result of a(r)**b(r)
 
@@ -145,6 +151,10 @@ def pow(a,b):
     deriv_b = gradient(b)
     def deriv(r):
       ar = a(r)
+      if ar <= 0.0 and deriv_b(r) == 0.0:
+        # Constant exponent: the power rule needs no log(a) and holds for negative and zero bases too
+        br = b(r)
+        return _power_term(br, ar, br-1) * deriv_a(r)
       return potential(r) * (deriv_b(r) * math.log(ar) + b(r) * deriv_a(r)/ar)
     potential.deriv = deriv
 
@@ -160,6 +170,10 @@ def pow(a,b):
         db = deriv_b(r)
         d2a = deriv2_a(r)
         d2b = deriv2_b(r)
+
+        if ar <= 0.0 and db == 0.0 and d2b == 0.0:
+          # Constant exponent and a base that is negative or zero (see deriv): power rule applied twice
+          return _power_term(br*(br-1), ar, br-2)*da*da + _power_term(br, ar, br-1)*d2a
 
         # value = (deriv_b(r)*log(a(r)) + b(r)*deriv_a(r)/a(r))*deriv(r) + (math.log(a(r))*deriv2_b(r) + b(r)*deriv2_a(r)/a(r) + deriv_a(r)*deriv2_b(r)/a(r) + deriv_b(r)*deriv2_a(r)/a(r) - b(r)*deriv_a(r)*deriv2_a(r)/a(r)**2)*potential(r)
         value = (db*math.log(ar) + (br*da)/ar)*dr + (math.log(ar)*d2b + (br*d2a)/ar + (da*db)/ar + (db*da)/ar - (br*da*da)/(ar**2))*p
